@@ -11,7 +11,7 @@ Set Warnings "-unused-intro-pattern".
 Section UpdateItem.
   Variable ct : ctable.
   Hypothesis Hflat : flat_table ct.
-  Hypothesis Hninv : no_inval_table ct.
+  Hypothesis Hninv : inval_spec ct.
   Hypothesis Hres : no_reserved_names ct.
   Notation Inv := (Inv ct).
   Notation rec := (exec ct XFUEL).
@@ -86,7 +86,7 @@ End UpdateItem.
 Section Transforms.
   Variable ct : ctable.
   Hypothesis Hflat : flat_table ct.
-  Hypothesis Hninv : no_inval_table ct.
+  Hypothesis Hninv : inval_spec ct.
   Hypothesis Hres : no_reserved_names ct.
   Notation Inv := (Inv ct).
   Notation rec := (exec ct XFUEL).
@@ -194,7 +194,7 @@ End Transforms.
 Section AttrUpdates.
   Variable ct : ctable.
   Hypothesis Hflat : flat_table ct.
-  Hypothesis Hninv : no_inval_table ct.
+  Hypothesis Hninv : inval_spec ct.
   Hypothesis Hres : no_reserved_names ct.
   Notation Inv := (Inv ct).
   Notation rec := (exec ct XFUEL).
@@ -262,7 +262,7 @@ Section AttrUpdates.
             destruct (pos0 hh); simpl in *; discriminate.
         - intros h [I0 _]. exact I0. }
       intros v. unfold with_attr. rewrite Hn.
-      apply (prepare_then_store_any ct Hflat Hninv rec XFUEL l a sp v Hl). }
+      apply (prepare_then_store_any ct Hflat Hninv XFUEL XFUEL l a sp v Hl). }
     destruct (pos0 hh); simpl in Hs; try discriminate; exact Body.
   Qed.
 
